@@ -463,4 +463,156 @@ theorem reduce2_variational (s s' : Vs2 K) (p q : V2 K) (hok : Vs2Ok s) :
       simp only [C05.dsq2, V2.zero] at this
       nlinarith
 
+
+/-! ## induction principle for the GJK loop -/
+/-- **the GJK loop carries invariants** (3-D): if `I` holds for the state the loop is entered with and every pass of the body that
+continues (`.next`) preserves it, then whatever the loop returns is the non-convergence fallback or the exit of a body that was
+entered with a state satisfying `I`. (`gjkLoop3_cases` is the case `I = True`.) This is the induction principle for statements
+about the state in which `gjk::closest_points` returns. -/
+theorem gjkLoop3_inv {K : Type} [Num K] (fs : V3 K → CSO3 K) (maxDist : Option K) (exact : Bool)
+    (I : Vs3 K → V3 K → V3 K → Option K → Prop)
+    (hstep : ∀ s proj od mb s' proj' od' mb', I s proj od mb →
+      gjkBody3 fs maxDist exact s proj od mb = .next s' proj' od' mb' → I s' proj' od' (some mb')) (fuel : Nat) :
+    ∀ (s : Vs3 K) (proj oldDir : V3 K) (maxBound : Option K) (r : GjkRes3 K) (s' : Vs3 K), I s proj oldDir maxBound →
+    gjkLoop3 fs maxDist exact fuel s proj oldDir maxBound = (r, s') →
+    r = .noIntersection ⟨1, 0, 0⟩ ∨
+    ∃ s0 p0 o0 m0, I s0 p0 o0 m0 ∧ gjkBody3 fs maxDist exact s0 p0 o0 m0 = .exit r s' := by
+  induction fuel with
+  | zero =>
+    intro s proj oldDir maxBound r s' _ h
+    simp only [gjkLoop3, Prod.mk.injEq] at h
+    exact Or.inl h.1.symm
+  | succ n ih =>
+    intro s proj oldDir maxBound r s' hI h
+    simp only [gjkLoop3] at h
+    rcases hb : gjkBody3 fs maxDist exact s proj oldDir maxBound with ⟨r0, s0⟩ | ⟨s1, p1, o1, m1⟩
+    · rw [hb] at h
+      simp only [Prod.mk.injEq] at h
+      exact Or.inr ⟨s, proj, oldDir, maxBound, hI, by rw [hb, h.1, h.2]⟩
+    · rw [hb] at h
+      exact ih s1 p1 o1 (some m1) r s' (hstep _ _ _ _ _ _ _ _ hI hb) h
+
+/-- the same in 2-D -/
+theorem gjkLoop2_inv {K : Type} [Num K] (fs : V2 K → CSO2 K) (maxDist : Option K) (exact : Bool)
+    (I : Vs2 K → V2 K → V2 K → Option K → Prop)
+    (hstep : ∀ s proj od mb s' proj' od' mb', I s proj od mb →
+      gjkBody2 fs maxDist exact s proj od mb = .next s' proj' od' mb' → I s' proj' od' (some mb')) (fuel : Nat) :
+    ∀ (s : Vs2 K) (proj oldDir : V2 K) (maxBound : Option K) (r : GjkRes2 K) (s' : Vs2 K), I s proj oldDir maxBound →
+    gjkLoop2 fs maxDist exact fuel s proj oldDir maxBound = (r, s') →
+    r = .noIntersection ⟨1, 0⟩ ∨
+    ∃ s0 p0 o0 m0, I s0 p0 o0 m0 ∧ gjkBody2 fs maxDist exact s0 p0 o0 m0 = .exit r s' := by
+  induction fuel with
+  | zero =>
+    intro s proj oldDir maxBound r s' _ h
+    simp only [gjkLoop2, Prod.mk.injEq] at h
+    exact Or.inl h.1.symm
+  | succ n ih =>
+    intro s proj oldDir maxBound r s' hI h
+    simp only [gjkLoop2] at h
+    rcases hb : gjkBody2 fs maxDist exact s proj oldDir maxBound with ⟨r0, s0⟩ | ⟨s1, p1, o1, m1⟩
+    · rw [hb] at h
+      simp only [Prod.mk.injEq] at h
+      exact Or.inr ⟨s, proj, oldDir, maxBound, hI, by rw [hb, h.1, h.2]⟩
+    · rw [hb] at h
+      exact ih s1 p1 o1 (some m1) r s' (hstep _ _ _ _ _ _ _ _ hI hb) h
+
+/-- **what a continuing pass of the 3-D loop body does** (`.next`): the direction is `−proj/|proj|` with `|proj| = mb'` the new
+upper bound, the old upper bound is NOT `≤` the new one (the sequence of `max_bound`s decreases strictly), the support point
+`fs dir` was accepted by `add_point`, the new simplex and projection are the reduction of the enlarged simplex, and the simplex is
+not full. Together with `gjkLoop3_inv` this is the induction step for invariants of `gjk::closest_points`. -/
+theorem gjkBody3_next_cases {K : Type} [Num K] (fs : V3 K → CSO3 K) (maxDist : Option K) (exact : Bool) (s s' : Vs3 K)
+    (proj oldDir proj' od' : V3 K) (maxBound : Option K) (mb' : K) :
+    gjkBody3 fs maxDist exact s proj oldDir maxBound = .next s' proj' od' mb' →
+    tryNewAndGet3 proj.neg epsTol = some (od', mb') ∧ optLe maxBound mb' = false ∧
+    ∃ s1, s.addPoint (fs od') = some (s1, true) ∧ s1.projectOriginAndReduce = some (s', proj') ∧ s'.dim ≠ 3 := by
+  intro h
+  unfold gjkBody3 at h
+  rcases ht : tryNewAndGet3 proj.neg epsTol with _ | ⟨dir, mb⟩
+  · rw [ht] at h; simp at h
+  · rw [ht] at h
+    dsimp only at h
+    by_cases c1 : optLe maxBound mb = true
+    · rw [if_pos c1] at h; cases exact <;> simp at h
+    · rw [if_neg c1] at h
+      by_cases c2 : (!isFinite (-dir.dot (fs dir).point)) = true
+      · rw [if_pos c2] at h; simp at h
+      · rw [if_neg c2] at h
+        by_cases c3 : optLt maxDist (-dir.dot (fs dir).point) = true
+        · rw [if_pos c3] at h; simp at h
+        · rw [if_neg c3] at h
+          by_cases c4 : (!exact && decide (0 < -dir.dot (fs dir).point) && leOpt mb maxDist) = true
+          · rw [if_pos c4] at h; cases h
+          · rw [if_neg c4] at h
+            by_cases c5 : mb - -dir.dot (fs dir).point ≤ Num.sqrt epsTol * mb
+            · rw [if_pos c5] at h; cases exact <;> cases h
+            · rw [if_neg c5] at h
+              rcases ha : s.addPoint (fs dir) with _ | ⟨s1, b⟩
+              · rw [ha] at h; cases h
+              · rw [ha] at h
+                cases b with
+                | false => cases exact <;> cases h
+                | true =>
+                  dsimp only at h
+                  rcases hp : s1.projectOriginAndReduce with _ | ⟨s2, pr⟩
+                  · rw [hp] at h; cases h
+                  · rw [hp] at h
+                    dsimp only at h
+                    by_cases c6 : s2.dim = 3
+                    · rw [if_pos c6] at h
+                      split_ifs at h <;> cases h
+                    · rw [if_neg c6] at h
+                      simp only [GjkStep3.next.injEq] at h
+                      obtain ⟨e1, e2, e3, e4⟩ := h
+                      subst e1 e2 e3 e4
+                      exact ⟨rfl, by simpa using c1, s1, ha, hp, c6⟩
+/-- **what a continuing pass of the 2-D loop body does** (`.next`): the direction is `−proj/|proj|` with `|proj| = mb'` the new
+upper bound, the old upper bound is NOT `≤` the new one (the sequence of `max_bound`s decreases strictly), the support point
+`fs dir` was accepted by `add_point`, the new simplex and projection are the reduction of the enlarged simplex, and the simplex is
+not full. Together with `gjkLoop2_inv` this is the induction step for invariants of `gjk::closest_points`. -/
+theorem gjkBody2_next_cases {K : Type} [Num K] (fs : V2 K → CSO2 K) (maxDist : Option K) (exact : Bool) (s s' : Vs2 K)
+    (proj oldDir proj' od' : V2 K) (maxBound : Option K) (mb' : K) :
+    gjkBody2 fs maxDist exact s proj oldDir maxBound = .next s' proj' od' mb' →
+    tryNewAndGet2 proj.neg epsTol = some (od', mb') ∧ optLe maxBound mb' = false ∧
+    ∃ s1, s.addPoint (fs od') = some (s1, true) ∧ s1.projectOriginAndReduce = some (s', proj') ∧ s'.dim ≠ 2 := by
+  intro h
+  unfold gjkBody2 at h
+  rcases ht : tryNewAndGet2 proj.neg epsTol with _ | ⟨dir, mb⟩
+  · rw [ht] at h; simp at h
+  · rw [ht] at h
+    dsimp only at h
+    by_cases c1 : optLe maxBound mb = true
+    · rw [if_pos c1] at h; cases exact <;> simp at h
+    · rw [if_neg c1] at h
+      by_cases c2 : (!isFinite (-dir.dot (fs dir).point)) = true
+      · rw [if_pos c2] at h; simp at h
+      · rw [if_neg c2] at h
+        by_cases c3 : optLt maxDist (-dir.dot (fs dir).point) = true
+        · rw [if_pos c3] at h; simp at h
+        · rw [if_neg c3] at h
+          by_cases c4 : (!exact && decide (0 < -dir.dot (fs dir).point) && leOpt mb maxDist) = true
+          · rw [if_pos c4] at h; cases h
+          · rw [if_neg c4] at h
+            by_cases c5 : mb - -dir.dot (fs dir).point ≤ Num.sqrt epsTol * mb
+            · rw [if_pos c5] at h; cases exact <;> cases h
+            · rw [if_neg c5] at h
+              rcases ha : s.addPoint (fs dir) with _ | ⟨s1, b⟩
+              · rw [ha] at h; cases h
+              · rw [ha] at h
+                cases b with
+                | false => cases exact <;> cases h
+                | true =>
+                  dsimp only at h
+                  rcases hp : s1.projectOriginAndReduce with _ | ⟨s2, pr⟩
+                  · rw [hp] at h; cases h
+                  · rw [hp] at h
+                    dsimp only at h
+                    by_cases c6 : s2.dim = 2
+                    · rw [if_pos c6] at h
+                      split_ifs at h <;> cases h
+                    · rw [if_neg c6] at h
+                      simp only [GjkStep2.next.injEq] at h
+                      obtain ⟨e1, e2, e3, e4⟩ := h
+                      subst e1 e2 e3 e4
+                      exact ⟨rfl, by simpa using c1, s1, ha, hp, c6⟩
+
 end C01
